@@ -152,7 +152,7 @@ def _same(a, b):
 # ------------------------------------------------------------------ VecEnv stacks
 
 def gen_stack(rng):
-    kind = rng.choice(["box1", "image_hwc", "dict", "dict", "discrete"])
+    kind = rng.choice(["box1", "image_hwc", "dict", "dict", "discrete", "tuple", "multidiscrete"])
     n_envs = rng.randint(1, 3)
     wrappers = []
     cur = kind
